@@ -81,6 +81,41 @@ def _close_steps(path):
     return steps
 
 
+def check_only_the_exit_closes(check, an: Analysis, rule: str, receivers):
+    """children -- volatile ones too -- are closed by the closing sequence at the exit of
+    the block only: no other method of a scope (registering or deregistering a child,
+    cancelling the scope) closes a child on any path, its private helpers run in place"""
+    for recv in receivers:
+        info = an.cls(recv)
+        label = recv.rsplit('.', 1)[-1]
+        names = set()
+        for entry in info.mro:
+            other = an.p.classes.get(entry)
+            if other is not None:
+                names.update(other.methods)
+        n_paths, bad = 0, None
+        for name in sorted(names):
+            private = name.startswith('_') and not name.startswith('__')
+            if name in ('__aexit__', '__init__') or private:
+                continue  # private helpers are judged where they run: in their callers
+            method = an.p.find_method(recv, name)
+            if method is None or method.is_property or method.kind not in (
+                    'sync', 'coroutine'):
+                continue
+            for path in an.paths(Callee(method, recv)):
+                n_paths += 1
+                for index, event in enumerate(path.events):
+                    if event.kind in ('call', 'enter', 'susp') and \
+                            is_call_to(event, '__close__', _scope.TASK):
+                        bad = bad or (name, path, index)
+        check.instance(rule, 'only-the-exit-closes-children[%s]' % label,
+                       bad is None and n_paths > 0, where_fn(an.method(recv, '__aexit__')),
+                       'no method other than __aexit__ closes a child task%s (%d paths)' % (
+                           '' if bad is None else ': %s does' % bad[0], n_paths),
+                       path=rules.path_lines(bad[1], bad[2]) if bad else None,
+                       analysed=n_paths)
+
+
 def check_close_on_every_exit(check, an: Analysis, rule: str, receivers):
     """every way out of Scope.__aexit__ runs the closing sequence exactly once"""
     for recv in receivers:
@@ -211,7 +246,9 @@ def run(check, an: Analysis):
                        waits == {_scope.DONE}, where_fn(awaitc.fn),
                        'the only thing awaited is the completion of a child: %s'
                        % sorted(w or '?' for w in waits))
+    _scope.check_await_children_progress(check, an, 'E')
     # ---- M ------------------------------------------------------------------
+    check_only_the_exit_closes(check, an, 'M', receivers)
     check_copy_iteration(check, an, 'M')
     check.floor('M', 5)
     # ---- R ------------------------------------------------------------------
